@@ -87,6 +87,12 @@ func ParseExpr(tm *t.Map, filename string, src []t.Token, opts *Options) (*a.Exp
 	return p.parseExpr()
 }
 
+// maxNestingDepth bounds the parser's recursion, so that a pathological
+// input (a megabyte of "(" bytes) is a parse error instead of overflowing the
+// call stack. It is far above what the later stages accept (for example,
+// ast.MaxExprDepth and ast.MaxBodyDepth).
+const maxNestingDepth = 100000
+
 type parser struct {
 	tm         *t.Map
 	filename   string
@@ -96,6 +102,17 @@ type parser struct {
 	funcEffect a.Effect
 	loops      a.LoopStack
 	allowVar   bool
+	depth      uint32
+}
+
+// nest increments the recursion depth. Callers should decrement p.depth when
+// they return.
+func (p *parser) nest() error {
+	p.depth++
+	if p.depth > maxNestingDepth {
+		return fmt.Errorf(`parse: nesting too deep at %s:%d`, p.filename, p.line())
+	}
+	return nil
 }
 
 func (p *parser) line() uint32 {
@@ -496,6 +513,11 @@ func (p *parser) parseFieldNode1(flags a.Flags) (*a.Node, error) {
 }
 
 func (p *parser) parseTypeExpr() (*a.TypeExpr, error) {
+	defer func() { p.depth-- }()
+	if err := p.nest(); err != nil {
+		return nil, err
+	}
+
 	if x := p.peek1(); x == t.IDNptr || x == t.IDPtr {
 		p.src = p.src[1:]
 		rhs, err := p.parseTypeExpr()
@@ -757,6 +779,11 @@ func (p *parser) parseLabel() (t.ID, error) {
 }
 
 func (p *parser) parseStatement1() (*a.Node, error) {
+	defer func() { p.depth-- }()
+	if err := p.nest(); err != nil {
+		return nil, err
+	}
+
 	x := p.peek1()
 	if x == t.IDVar {
 		if !p.allowVar {
@@ -1164,6 +1191,11 @@ func (p *parser) parseIOManipNode() (*a.Node, error) {
 }
 
 func (p *parser) parseIf() (*a.If, error) {
+	defer func() { p.depth-- }()
+	if err := p.nest(); err != nil {
+		return nil, err
+	}
+
 	if x := p.peek1(); x != t.IDIf {
 		got := p.tm.ByID(x)
 		return nil, fmt.Errorf(`parse: expected "if", got %q at %s:%d`, got, p.filename, p.line())
@@ -1418,6 +1450,11 @@ func (p *parser) parsePossibleListExprNode() (*a.Node, error) {
 }
 
 func (p *parser) parsePossibleListExpr() (*a.Expr, error) {
+	defer func() { p.depth-- }()
+	if err := p.nest(); err != nil {
+		return nil, err
+	}
+
 	// TODO: put the [ and ] parsing into parseExpr.
 	if x := p.peek1(); x != t.IDOpenBracket {
 		return p.parseExpr()
@@ -1491,6 +1528,11 @@ func (p *parser) parseExpr1() (*a.Expr, error) {
 }
 
 func (p *parser) parseOperand() (*a.Expr, error) {
+	defer func() { p.depth-- }()
+	if err := p.nest(); err != nil {
+		return nil, err
+	}
+
 	switch x := p.peek1(); {
 	case x.IsUnaryOp():
 		p.src = p.src[1:]
